@@ -1,10 +1,11 @@
 from harness import evprops, hcommon, hprop_run, sysprops
 
 PROP = "C02"
+EXTRA_PROPS = ("C02u",) if PROP == "C02" else ()     # unbounded: unacknowledged transfer over a perfect link, any file
 RULES = {
  "C02": "fault-free link: modes x closure x checksum types x sizes 0..13 x random CRC flag / id widths / seq widths / segment length / "
         "max packet length / NAK mode x destination as file / directory / existing file x pacing (0-3 extra empty calls per round), "
-        "metadata-only requests; distinct = (config class, visited (step, op, exception) set)",
+        "metadata-only requests; plus 2-4 consecutive transfers on the same handler pair with per-request mode/closure and idle gaps of 0..120 s; distinct = (config class, visited (step, op, exception) set)",
  "C01": "random configurations (both modes, closure, NAK modes, 4 checksum types) x 0..12 link faults per transfer (drop / duplicate / "
         "delay / file-data bit flip) and destination write rejections; at every success report (indication or Finished PDU, either side) "
         "the destination file is read back and compared with the source; distinct = (config class, visited (step, op, exception) set)",
@@ -16,9 +17,9 @@ RULES = {
 
 def run(tier, seed):
     hc = hcommon.HandlerCheck(PROP, tier, seed)
-    hc.gate()
+    hc.gate(EXTRA_PROPS)
     n_success_checks = 0
-    for case in sysprops.c02_cases(tier, hc.rng):
+    for case in hcommon.share(sysprops.c02_cases(tier, hc.rng)):
         case.run()
         fail = sysprops.check_c02(case)
         n_success_checks += len(case.success_checks)
@@ -30,6 +31,19 @@ def run(tier, seed):
             hc.world_violation(fail, case.describe(), case.sides)
         if len(hc.v.violations) > 3:
             break
+    for case in hcommon.share(sysprops.c02_seq_cases(tier, hc.rng)):
+        if len(hc.v.violations) > 3:
+            break
+        case.run()
+        for kind, ops, obs in case.sides:
+            hc.add_trace(kind, ops, obs, label="consecutive fault-free transfers on one handler pair", describe=case.describe)
+        hc.judged += 1
+        hc.count(("sequence", len(case.txs)))
+        for k, res in enumerate(case.results):
+            fail = sysprops.check_c02(res)
+            if fail:
+                hc.world_violation(f"transaction {k + 1} of {len(case.txs)} on the same handlers: " + fail, case.describe(), case.sides)
+                break
     hc.correspondence(project=hcommon.proj_all_external, theorem="props/C02.v (correspondence source+dest, all external observables)")
     return hc.finish(RULES[PROP], {"success_reports_checked": n_success_checks})
 
